@@ -249,6 +249,22 @@ class RankRunner:
             elif kind == 'sched_step':
                 if self.sched is not None:
                     self.sched.step()
+            elif kind == 'snapshot':
+                # a state dict kept alive in memory (not pickled) must not change when training continues
+                self._snap_live = self.pre.state_dict()
+                self._snap_copy = pickle.loads(pickle.dumps(self._snap_live))
+            elif kind == 'check_snapshot':
+                bad = None
+                live, copy_ = self._snap_live, self._snap_copy
+                for key in copy_:
+                    if key != 'layers' and live.get(key) != copy_[key]:
+                        bad = f'{key} changed from {copy_[key]!r} to {live.get(key)!r}'
+                for n, fs in copy_.get('layers', {}).items():
+                    for f in ('A', 'G'):
+                        a, b = fs[f], live['layers'][n][f]
+                        if (a is None) != (b is None) or (a is not None and not torch.equal(a, b)):
+                            bad = f'factor {f} of layer {n} changed after the state was taken'
+                rec['snapshot_mutated'] = bad
             elif kind == 'reload_live':
                 # same object: second-order data recomputed from its own factors at the current damping
                 with warnings.catch_warnings():
